@@ -223,6 +223,38 @@ inline void run(Ctx& C) {
       C.end();
     }
   }
+  // ---- 3b. escapes placed around the string builder's capacity steps (31, 63, 127, 255 bytes): the UTF-8 bytes of one
+  //          escape straddle a growth of the buffer.  One code unit per encoded length + a surrogate pair + short escapes.
+  {
+    struct E { const char* esc; std::string bytes; };
+    std::vector<E> escs = {{"\\u0041", "A"}, {"\\u00e9", utf8(0xe9)}, {"\\u20AC", utf8(0x20ac)}, {"\\ud83d\\ude00", utf8(0x1f600)},
+                           {"\\n", "\n"}, {"\\u0000", std::string(1, '\0')}};
+    std::vector<size_t> pads;
+    for (size_t base : {size_t(31), size_t(63), size_t(127), size_t(255), size_t(511)})
+      for (size_t d = 0; d <= 6; d++) pads.push_back(base - 5 + d);
+    for (size_t pad : pads) {
+      for (size_t ei = 0; ei < escs.size(); ei++) {
+        for (int asKey = 0; asKey < 2; asKey++) {
+          for (int twice = 0; twice < 2; twice++) {
+            if (!C.take()) continue;
+            std::string prefix(pad, 'x'), e = escs[ei].esc, want = prefix + escs[ei].bytes + (twice ? escs[ei].bytes : "") + "y";
+            std::string body = prefix + e + (twice ? e : "") + "y";
+            std::string text = asKey ? "{\"" + body + "\":1}" : "\"" + body + "\"";
+            C.begin("uni-pad:pad=" + std::to_string(pad) + "|esc=" + std::to_string(ei) + (asKey ? "|key" : "|value") + (twice ? "|x2" : ""));
+            for (int sized = 0; sized < 2; sized++) {
+              DeserializationError::Code code;
+              std::string got, why;
+              bool ok = parseOne(text, asKey ? 4 : 0, sized, code, got, why);
+              if (!ok) C.fail("padded-decode", std::string("code=") + DeserializationError(code).c_str() + " " + why);
+              else if (got != want) C.fail("padded-decode", "got ..." + verif::hex(got.substr(pad > 4 ? pad - 4 : 0)) + " want ..." + verif::hex(want.substr(pad > 4 ? pad - 4 : 0)));
+            }
+            C.nontrivial();
+            C.end();
+          }
+        }
+      }
+    }
+  }
   // ---- 4. all single bytes and all byte pairs as content of a value and of a key
   for (uint32_t n = 0; n < 256 + 65536; n++) {
     for (int use = 0; use < 2; use++) {
